@@ -5,8 +5,8 @@ current source (SE.Gen.accessTable: method, receiver-field location, read/write,
 held with their mode).
 
 What is *not* extracted is written down here, by hand, and is part of the trusted base:
- * `rolesOf`: which goroutine roles execute a method, and whether several goroutines of that role can
-   run it at once (read off main.go and the package APIs);
+ * `listedRoles`/`exemptMethod`: which goroutine roles execute a method, and whether several goroutines of that role can
+   run it at once (read off main.go and the package APIs); methods in neither table default to "any number of callers";
  * `canon`: under which canonical name an extracted location is tracked (every plain receiver field is, by default), and what
    a call into third-party code does to it (`lru.Cache.Get` reorders its list, i.e. writes; prometheus
    collectors, channels and slog loggers synchronise internally and are not tracked).
@@ -19,9 +19,8 @@ structure Role where
   multi : Bool         -- several goroutines of this role may run concurrently
   deriving DecidableEq, Repr
 
-/-- goroutine roles per method. Methods not listed run only before the goroutines start (constructors,
-    YAML decoding on the loader's private copy) or are pure accessors of immutable/event-local data. -/
-def rolesOf (ty method : String) : List Role :=
+/-- goroutine roles per method, as read off main.go and the package APIs -/
+def listedRoles (ty method : String) : List Role :=
   let exporter : Role := ⟨"exporter", false⟩
   let lookup : List Role := [exporter, ⟨"library-lookup", true⟩]    -- GetMapping: the exporter goroutine and any library caller
   let reloader : Role := ⟨"reloader", true⟩                         -- the SIGHUP goroutine and one goroutine per POST /-/reload (main.go): reloads can overlap
@@ -50,6 +49,31 @@ def rolesOf (ty method : String) : List Role :=
   -- (`SetEventHandler` is called by main.go before the goroutines are started)
   else if ty == "StatsDUDPListener" || ty == "StatsDTCPListener" || ty == "StatsDUnixgramListener" then
     if method == "SetEventHandler" then [] else [listener]
+  else []
+
+/-- methods that are known not to run concurrently with anything that matters: value types that are event-local or
+    private to the loader (all their methods), and set-up calls main.go makes before the goroutines start;
+    `FlushUnlocked` is only reachable through `Queue`/`Flush` (inlined there by the extractor, with their lock) -/
+def exemptMethod (ty method : String) : Bool :=
+  ["CounterEvent", "GaugeEvent", "ObserverEvent", "MultiObserverEvent", "MapperConfigDefaults", "MaybeFloat64",
+   "MetricMapping", "UnbufferedEventHandler", "uncheckedCollector"].contains ty ||
+  [("EventQueue", "FlushUnlocked"), ("MetricMapper", "UseCache"), ("StatsDTCPListener", "SetEventHandler"),
+   ("StatsDUDPListener", "SetEventHandler"), ("StatsDUnixgramListener", "SetEventHandler")].contains (ty, method)
+
+/-- exported (callable from anywhere) or spawned with `go` (the extractor's `…$go` pseudo-methods) -/
+def exportedOrSpawned (method : String) : Bool :=
+  (match method.toList.head? with | some c => c.isUpper | none => false) ||
+  (method.toList.reverse.take 3 == ['o', 'g', '$'])
+
+/-- goroutine roles per method: the listed ones; any other exported or spawned method of an extracted type that is not
+    exempt counts as callable by several goroutines at once — so a method added to the source is covered by the
+    discipline without touching these tables (and a renamed one does not silently drop out of it). Unexported helpers
+    are covered where they are called: the extractor inlines them into their callers with the locks held there. -/
+def rolesOf (ty method : String) : List Role :=
+  let r := listedRoles ty method
+  if !r.isEmpty then r
+  else if exemptMethod ty method then []
+  else if exportedOrSpawned method then [⟨"unlisted-caller", true⟩]
   else []
 
 /-- `T.f`: exactly one dot and no call suffix -/
